@@ -205,3 +205,68 @@ def dependency_obligations(ctx, which=("build_matrix", "solve", "alpha", "mscale
         src = built[modname][oid]
         out.append(Obligation("dep." + oid, f"[contract relied upon, {modname.upper()}] " + src.statement, src.run, src.functions, src.backend, src.replay, src.assumptions))
     return out
+
+
+# ---- method-level contracts for callers of the reservoir (forecast_pressure.py, plotting.py) ------------------------
+#   FlowProperties(table, p_i)                    the wrapper of that table at that initial pressure (C09)
+#   SinglePhaseReservoir.simulate(time, schedule) stores time and a field that is a function of (nx, fluid, time, schedule) only (C10)
+#   recovery_factor()                             RF(current state, mode), stored as the cache (C10)
+
+
+def install_method_contracts(ctx):
+    def fp_init(ex, args, kw):
+        obj, table, p_i = args[0], args[1], args[2]
+        calls = ex.ghost.setdefault("fp_ctor", [])
+        obj.fields["ctor"] = {"table": table, "p_i": p_i, "id": len(calls)}
+        obj.fields["m_i"] = tm.app(f"m_i@fp{len(calls)}", [tm.lift(p_i)] if isinstance(p_i, tm.T) else [])
+        calls.append(obj.fields["ctor"])
+        used(ex, "contract of FlowProperties.__init__ (C09)")
+        return None
+
+    def simulate(ex, args, kw):
+        res, time = args[0], as_array(ex, args[1])
+        sched = kw.get("pressure_fracface") if "pressure_fracface" in kw else (args[2] if len(args) > 2 else None)
+        sims = ex.ghost.setdefault("sim_calls", [])
+        kk = len(sims)
+        if sched is not None:
+            sched = as_array(ex, sched)
+            if sched.shape[0] is not time.shape[0]:
+                bad = tm.ne(sched.shape[0], time.shape[0])
+                if ex.decide(bad):
+                    raise sx.Raised("ValueError", "Pressure time series does not match time variable")
+        sims.append({"receiver": res, "fields": dict(res.fields), "time": time, "time_fn": time.cur(), "schedule": sched, "schedule_fn": (sched.cur() if sched is not None else None), "id": kk, "cls": res.cls.name})
+        res.fields["time"] = time
+        res.fields.pop("recovery", None)
+        nxv = res.fields["nx"]
+        res.fields["pseudopressure"] = ArrV((time.shape[0], tm.lift(nxv)), lambda idx, kk=kk: tm.app(f"SIM{kk}", idx, tm.R), "f8", name=f"SIM{kk}")
+        res.fields["_sim"] = kk
+        res.writes.append(("set", "time"))
+        res.writes.append(("set", "pseudopressure"))
+        used(ex, "contract of simulate() (C10: stored field is a function of the arguments and constructor fields only)")
+        return None
+
+    def recovery_factor(ex, args, kw):
+        res = args[0]
+        if (len(args) > 1 and args[1] is not None) or kw.get("time") is not None:
+            pass
+        if "time" not in res.fields:
+            raise sx.Raised("RuntimeError", "Need to run simulate before calculating recovery factor")
+        rfs = ex.ghost.setdefault("rf_calls", [])
+        kk = len(rfs)
+        dens = kw.get("density", args[2] if len(args) > 2 else False)
+        t = res.fields["time"]
+        arr = ArrV((t.shape[0],), lambda idx, kk=kk: tm.app(f"RF{kk}", idx, tm.R), "f8", name=f"RF{kk}")
+        rfs.append({"receiver": res, "sim": res.fields.get("_sim"), "density": dens, "id": kk, "array": arr})
+        res.fields["recovery"] = arr
+        used(ex, "contract of recovery_factor() (C10: RF(current state, mode))")
+        return arr
+
+    ctx.engine.opaque[FP + "FlowProperties.__init__"] = fp_init
+    ctx.engine.opaque[SSIM] = simulate
+    ctx.engine.opaque[ISIM] = simulate
+    ctx.engine.opaque[RF] = recovery_factor
+
+
+def uninstall_method_contracts(ctx):
+    for q in (FP + "FlowProperties.__init__", SSIM, ISIM, RF):
+        ctx.engine.opaque.pop(q, None)
